@@ -715,6 +715,25 @@ fn main() {
                 .with(if c.kind.is_padding_boundary(c.len) { "padding-boundary" } else if c.len >= 2 * c.kind.block() { ">=2-blocks" } else { "other-len" }))
         });
         }
+        if on("bytehash.lookup-tuples") {
+            // the spread-table chips (SHA-256, SHA-512, RIPEMD-160): cells tied by a lookup are
+            // replaced together by another row of the table, the remaining gates repaired
+            let mut rng = SplitMix(vpcore::derive_seed(&["C07", "s5"], seed));
+            let items: Vec<MsgCase> = (if quick { vec![HashKind::Ripemd160, HashKind::Sha256] } else { vec![HashKind::Ripemd160, HashKind::Sha256, HashKind::Sha512] }).iter().map(|k| MsgCase { kind: *k, len: 3, class: 3, seed: rng.next_u64() }).collect();
+            p.enumerate(
+                "bytehash.lookup-tuples",
+                "coherent lookup-tuple substitution (S5): on one honest run, the advice cells that one lookup row ties together (a limb and its spread form, ...) are replaced together by another row of the table with the same non-advice slots, one row per structural class; gate constraints violated by that are repaired by solving for a nearby assignment in which the residual is affine (depth 2); any accepted replay must expose the reference digest; non-trivial = at least one tuple substituted",
+                items,
+                3,
+                false,
+                |c| {
+                    let x = c.x();
+                    let (max_classes, budget) = if !quick { (100_000, 60) } else if c.kind == HashKind::Ripemd160 { (64, 20) } else { (32, 16) };
+                    let (st, v) = if c.kind == HashKind::Ripemd160 { vp_circ::ops_hash::s5_target(&ScrT(Ripemd160Op { len: c.len }), &x, c.seed, max_classes, budget)? } else { vp_circ::ops_hash::s5_target(&StdT(ByteHash { kind: c.kind, len: c.len }), &x, c.seed, max_classes, budget)? };
+                    Ok(v.with(format!("{}: lookups={} classes={} tuples={} replays={} repairs={} accepted-correct={} accepted-same={}", c.kind.name(), st.lookups, st.classes, st.tuples_tried, st.replays, st.repairs_found, st.accepted_correct, st.accepted_same)))
+                },
+            );
+        }
         if on("bytehash.sweep") {
             // one chip each: SHA-256, SHA-512, BLAKE2b, Keccak-f
             let mut rng = SplitMix(vpcore::derive_seed(&["C07", "sweep"], seed));
